@@ -72,4 +72,75 @@ PROPS["C14"] = {
     "assumptions": [],
 }
 
+_NET_TRUST = ("Trusted: Z3 4.8.12 (QF_LRA / QF_IDL / propositional) as decision procedure, the harness's own Floyd-Warshall and GMP arithmetic, hooks H1/H2 "
+              "(learnt-clause callback, dumps of clauses / LRA assertions / DL constraints). One-directional cardinality literals are judged under the reading most "
+              "favourable to the code (inferences against the equivalence, verdicts against the implication).")
+
+
+def _c07(tier):
+    q = tier == "quick"
+    return [
+        {"cfg": "dbg", "harness": "h_net", "sub": "sat", "cases": 1000 if q else 12000, "max_size": 1500, "shards": 8, "budget_ms": 30000},
+        {"cfg": "dbg", "harness": "h_net", "sub": "mixed", "cases": 1000 if q else 12000, "max_size": 800, "shards": 8, "budget_ms": 30000},
+    ]
+
+
+PROPS["C07"] = {
+    "runs": _c07,
+    "rule": "Case: a history on a sat_core with LRA, OV, IDL and RDL theories bound as in ratio::core. Up to 3 rounds of [creation at root: booleans, numeric variables, "
+            "relation / distance / object-equality / reified literals, clauses, 3-literal clauses near the satisfiability threshold, simplify_db][search: assume (biased to "
+            "unassigned and theory literals), pop, multi-level pop, next, check, propagate]. Sub-run 'sat' is purely propositional with 8-14 variables and long searches. "
+            "Oracles after every operation (Z3 over the literals' claimed meanings): S1 every reported literal value is entailed by clauses + theories + standing decisions "
+            "(vacuity-aware); S2 every false answer of new_clause/propagate/next/assume/check is justified by unsatisfiability; S3 a total assignment after successful propagation "
+            "is a model; S4 (hook H1) every clause learnt from a conflict or recorded by a theory is entailed at the moment it is learnt; clauses added by next() are added to the model. "
+            "Non-trivial: the history contains a learnt clause of >= 2 literals, a backjump over >= 2 levels, or a theory lemma. Distinct by rendered history.",
+    "technique": "stateful property-based testing (rapidcheck tapes -> operation histories) against a Z3 reference model, with a learnt-clause entailment oracle through a guarded hook",
+    "level_text": "Random API histories respecting the asserted preconditions, every observable compared with an independent decision procedure after every step. "
+                  "Sampling of histories (10^4 quick, 3*10^5 thorough); no completeness of propagation is demanded.",
+    "level_note": _NET_TRUST,
+    "assumptions": ["histories respect the asserted preconditions: creation only at root, assume only with an empty propagation queue, next() only when the last decision was on an unassigned literal",
+                    "a history stops at the first root-level false (dead network by contract)"],
+}
+PROPS["C08"] = {
+    "runs": _net("C08", 900, 18000, 800),
+    "rule": "Histories as in C07 (all four theories) biased to assumption chains over FAMILIES of literals that tighten the same LRA bound or the same DL distance at "
+            "successive levels, interleaved with conflicts, next() and multi-level pops. Oracle 'state is a function of the literals currently assigned', recomputed from scratch "
+            "after every operation: LRA lb/ub of every variable == tightest bound among the currently assigned assertion literals and the creation bounds; IDL/RDL distance(i,j) and "
+            "bounds(i) == Floyd-Warshall closure of the currently assigned (and negated) constraints; OV value(v) == values whose literal is not false; every reported literal value "
+            "entailed by clauses + current decisions (stale assignments surviving a pop fail this). Non-trivial: one pop/backjump undid >= 2 updates of the same bound or distance that "
+            "were made at >= 2 different levels (measured by observing the bounds after every step). Distinct by rendered history.",
+    "technique": "stateful property-based testing with a from-scratch reference state (own Floyd-Warshall / bound maxima / Z3 entailment) compared after every step",
+    "level_text": "Random assume/pop/next histories; all API-visible state compared exactly with a model that never took the undone decisions. Internal undo state that no API "
+                  "exposes (predecessors, responsible constraints) is seen only through later explanations (C10).",
+    "level_note": _NET_TRUST,
+    "assumptions": ["LRA bounds are compared through lb()/ub(), which only change by assertion (the theory never tightens a variable's bound by row propagation)"],
+}
+PROPS["C09"] = {
+    "runs": _net("C09", 900, 18000, 500),
+    "rule": "Histories restricted to booleans + LRA: 1-6 variables plus derived variables new_var(lin), relation literals (5 relations, expression shapes: constants, single "
+            "variable, sums of 2-4 terms with coefficients in +-{1,2,3,1/2,1/3}, repeated/cancelling variables, constants up to 20), implications between relation literals, "
+            "assume/negate/pop/next/check orders. Oracles after every successful propagation: every assigned relation literal holds/fails on value() with infinitesimal semantics "
+            "(exact GMP evaluation); every assigned theory atom (dump H2) holds on the slack's value; every derived/slack variable equals its defining expression; lb <= value <= ub; "
+            "bounds contain every real solution (Z3); every theory conflict / lemma (H1) is entailed; every false answer is justified by infeasibility (Z3). "
+            "Non-trivial: a pivot happened (an original variable became basic) and at least one theory conflict or lemma occurred. Distinct by rendered history.",
+    "technique": "stateful property-based testing against exact GMP evaluation and Z3 (QF_LRA) as complete reference",
+    "level_text": "Random constraint systems and assertion orders; model check of the reported values and validity check of every explanation. Termination of simplex is only "
+                  "covered by the per-case budget (budget hits are inconclusive).",
+    "level_note": _NET_TRUST,
+    "assumptions": ["a false equality literal is an undecided disjunction: nothing is demanded of the values for it"],
+}
+PROPS["C10"] = {
+    "runs": _net("C10", 1000, 12000, 400, subs=("idl", "rdl")),
+    "rule": "Histories restricted to booleans + IDL (sub-run idl) or RDL (sub-run rdl): 2-24 time points (growth beyond the initial 16x16 matrix), distance constraints "
+            "to - from <= d (RDL: rational d, strict via -eps), several constraints per ordered pair, both directions, implications between constraint literals, assume / negate / pop / next. "
+            "Oracles after every successful propagation, against own Floyd-Warshall over exact (rational + k*eps) weights: distance(i,j) and bounds(i) equal the closure of the currently "
+            "assigned (negated: from - to <= -d-1 resp. -d-eps) constraints; no negative cycle in a non-conflicting state; no undecided constraint is decided by the distances "
+            "(propagation completeness); every explanation (H1) is entailed (Z3); nothing else is inferred (S1). Non-trivial: >= 3 points and >= 1 theory conflict or propagated literal. "
+            "Distinct by rendered history.",
+    "technique": "stateful property-based testing against an own all-pairs-shortest-path reference and Z3 (QF_IDL/QF_RDL) for explanations",
+    "level_text": "Random difference-constraint histories compared exactly with the closure of the asserted constraints after every step.",
+    "level_note": _NET_TRUST,
+    "assumptions": ["IDL constants stay below 2^31; idl_theory::inf() is read as +infinity"],
+}
+
 NOT_CLAIMED = {}
